@@ -196,22 +196,23 @@ Fixpoint v_collect (fuel : nat) (h : nat -> option vnode) (cur : option nat) : l
   | O => []
   | S f => match cur with None => [] | Some n => n :: v_collect f h (v_next h cur) end
   end.
-(* the inner merge loop of two adjacent chunks; left_first = le left_data right_data (stable) *)
-Fixpoint v_merge (le : Z -> Z -> bool) (key : nat -> Z) (a : list nat) : list nat -> list nat :=
-  fix aux (b : list nat) : list nat :=
+(* the inner merge loop of two adjacent chunks; left_first = le left_data right_data (stable).
+   Polymorphic in the element type so that the Spec can use the very same function on values. *)
+Fixpoint v_merge {A} (le : Z -> Z -> bool) (key : A -> Z) (a : list A) : list A -> list A :=
+  fix aux (b : list A) : list A :=
     match a, b with
     | [], _ => b
     | _, [] => a
     | x :: a', y :: b' => if le (key x) (key y) then x :: v_merge le key a' b else y :: aux b'
     end.
 (* one pass "while (start < length)": the chunks of width current_size are kept as a list of runs *)
-Fixpoint v_merge_pairs (le : Z -> Z -> bool) (key : nat -> Z) (runs : list (list nat)) : list (list nat) :=
+Fixpoint v_merge_pairs {A} (le : Z -> Z -> bool) (key : A -> Z) (runs : list (list A)) : list (list A) :=
   match runs with
   | a :: b :: rest => v_merge le key a b :: v_merge_pairs le key rest
   | _ => runs
   end.
 (* "while (current_size < length) { pass; current_size *= 2 }": more than one run left <=> current_size < length *)
-Fixpoint v_merge_all (fuel : nat) (le : Z -> Z -> bool) (key : nat -> Z) (runs : list (list nat)) : list (list nat) :=
+Fixpoint v_merge_all {A} (fuel : nat) (le : Z -> Z -> bool) (key : A -> Z) (runs : list (list A)) : list (list A) :=
   match fuel with
   | O => runs
   | S f => match runs with
@@ -219,7 +220,7 @@ Fixpoint v_merge_all (fuel : nat) (le : Z -> Z -> bool) (key : nat -> Z) (runs :
            | _ => v_merge_all f le key (v_merge_pairs le key runs)
            end
   end.
-Definition v_sort_ids (le : Z -> Z -> bool) (key : nat -> Z) (arr : list nat) : list nat :=
+Definition v_sort_ids {A} (le : Z -> Z -> bool) (key : A -> Z) (arr : list A) : list A :=
   concat (v_merge_all (length arr) le key (List.map (fun n => [n]) arr)).
 (* step 3: rebuild prev/next from the sorted array *)
 Definition v_set_links (h : nat -> option vnode) (n : nat) (p nx : option nat) : nat -> option vnode :=
